@@ -98,7 +98,20 @@ func c20Body(t *testing.T, s *sim.Scn, o *sim.Outcome) {
 		res, err := seq.GetNextBatch(ctx, coresequencer.GetNextBatchRequest{Id: id, LastBatchData: lastData, MaxBytes: maxBytes})
 		calls++
 		if err != nil {
-			o.Fail("C20/next-batch-error", "", step, fmt.Sprintf("%s: %v", what, err), "no error (retrieval failures are retried later)")
+			// the statement does not say whether a call may fail while the DA layer fails; it does say that nothing is
+			// dropped or reordered: a failed call has released nothing, the sequence must continue where it was
+			pending := false
+			for _, sc := range da.ReadScript {
+				if len(sc) > 0 {
+					pending = true
+				}
+			}
+			if pending || strings.Contains(err.Error(), "sim: rpc error") {
+				o.Count("calls-failed-while-da-retrieval-fails", 1)
+				o.Logf("%d %s max=%d -> error %v", step, what, maxBytes, err)
+				return true
+			}
+			o.Fail("C20/next-batch-error", "", step, fmt.Sprintf("%s: %v", what, err), "no error with a healthy DA layer")
 			return false
 		}
 		if res == nil || res.Batch == nil || len(res.Batch.Transactions) == 0 {
